@@ -100,11 +100,14 @@ def world2pixel_single_axis(wcs, *world, pixel_axis=None):
     world_new = []
 
     # Now find all the world coordinates that are needed to calculate this
-    # world coordinate, using the axis correlation matrix
-    world_dep = wcs.axis_correlation_matrix[:, pixel_axis]
+    # pixel coordinate. A pixel coordinate can depend on world coordinates that
+    # do not themselves depend on it (e.g. for a triangular matrix), so we need
+    # all the axes that are coupled to this one.
+    nw = len(world)
+    world_dep = dependent_axes(wcs, nw - 1 - pixel_axis)
 
     for iw, w in enumerate(world):
-        if world_dep[iw]:
+        if nw - 1 - iw in world_dep:
             world_new.append(unbroadcast(w))
         else:
             world_new.append(w.flat[0])
@@ -162,8 +165,11 @@ def world_axis(wcs, data, *, pixel_axis=None, world_axis=None):
 
 def dependent_axes(wcs, axis):
     """
-    Return a tuple of which world-axes are non-independent
-    from a given pixel axis
+    Return a tuple of which axes are non-independent from a given axis
+
+    Pixel axis i and world axis i are regarded as the same axis here, and two
+    axes are non-independent if a world axis depends on a pixel axis in either
+    direction, directly or through other axes.
 
     The axis index is given in numpy ordering convention (note that
     opposite the fits convention)
@@ -171,8 +177,13 @@ def dependent_axes(wcs, axis):
     if isinstance(wcs, LegacyCoordinates):
         return (axis,)
     matrix = wcs.axis_correlation_matrix[::-1, ::-1]
-    world_dep = matrix[:, axis:axis + 1]
-    return tuple(np.nonzero((world_dep & matrix).any(axis=0))[0])
+    n = max(matrix.shape)
+    coupled = np.identity(n, dtype=int)
+    coupled[:matrix.shape[0], :matrix.shape[1]] += matrix
+    coupled += coupled.T
+    for _ in range(n):  # transitive closure
+        coupled = np.minimum(coupled.dot(coupled), 1)
+    return tuple(np.nonzero(coupled[axis])[0])
 
 
 def _get_ndim(header):
